@@ -10,7 +10,7 @@ def check(tier):
     rep = Reporter(PID, tier)
     pvh = build_harness()
     q = tier == "quick"
-    n = lexcommon.lex_replay(rep, pvh, ["MC_PongoLexer_code_q.cfg", "MC_PongoLexer_mixed_q.cfg"] if q else
+    n = lexcommon.lex_replay(rep, pvh, ["MC_PongoLexer_code_q.cfg", "MC_PongoLexer_mixed_q.cfg", "MC_PongoLexer_text_q.cfg"] if q else
                              ["MC_PongoLexer_code_t.cfg", "MC_PongoLexer_text_t.cfg", "MC_PongoLexer_mixed_t.cfg"], KINDS)
     n += lexcommon.fixture_traces(rep, pvh, KINDS)
     rep.cov["traces_validated_against_impl"] = rep.extra.get("fixture_traces", 0)
